@@ -597,7 +597,10 @@ func Enter(name string, args ...any) *ProbeTok {
 	if f == nil {
 		return nil
 	}
+	t := r.me()
+	t.noYield++
 	f(true, args)
+	t.noYield--
 	return &ProbeTok{r, name, args}
 }
 
@@ -606,7 +609,10 @@ func Exit(p *ProbeTok) {
 		return
 	}
 	if f := p.r.probes[p.name]; f != nil {
+		t := p.r.me()
+		t.noYield++
 		f(false, p.args)
+		t.noYield--
 	}
 }
 
@@ -639,6 +645,20 @@ func Access(objf func() any, field string, write bool, site string) {
 }
 
 // ---------------------------------------------------------------- environment API
+
+// NoYield runs f without scheduling points (for oracle code that calls
+// instrumented accessors).
+func NoYield(f func()) {
+	r := cur()
+	if r == nil {
+		f()
+		return
+	}
+	t := r.me()
+	t.noYield++
+	defer func() { t.noYield-- }()
+	f()
+}
 
 // Yield is an explicit scheduling point for simulator actors.
 func Yield(site string) {
